@@ -246,6 +246,29 @@ BisimRounds(ra, sa, a, lm, L, frontier, seen) ==
                      Obs(ra, q[1], lm, LAMBDA v : v) = Obs(sa, q[2], lm, LAMBDA i : ValStr(a, i))
        IN same /\ BisimRounds(ra, sa, a, lm, L, succ \ seen, seen \cup succ)
 
+\* Fast path of TableEquiv: the dumped table is the specification's automaton slot by slot (same trie, same
+\* fail links, same output chains, the dead slot as both variants lay it out, same mapped characters).  Then the
+\* two are the same structure and nothing remains to be compared; a table that differs in any of these (a valid
+\* optimisation of the fail links, say) is decided by the bisimulation below.
+ExactMatch(a, ev) ==
+  LET nfa    == a.aut
+      slots  == ev.slots
+      n      == Len(slots)
+      lm     == a.kind # "STD"
+      nodeOf == MapSlots(nfa, slots, 1, <<>>)
+  IN /\ n = Cardinality(Nodes(nfa)) /\ ev.extra = <<>>
+     /\ \A i \in 1..n : nodeOf[i] # 0
+     /\ Cardinality({nodeOf[i] : i \in 1..n}) = n
+     /\ \A i \in 2..n :
+           LET f == slots[i].failidx sf == nfa.st[nodeOf[i]].fail IN
+           IF sf = DEAD THEN f = 0 ELSE f >= 1 /\ f <= n /\ nodeOf[f] = sf
+     /\ \A i \in 1..n :
+           LET rc  == RealChain(a, ev.outs, slots[i].opos)
+               sc2 == SpecChain(a, nfa.st[nodeOf[i]].opos) IN
+           IF lm THEN HeadOf(rc) = HeadOf(sc2) ELSE rc = sc2
+     /\ ev.dead.opos = 0 /\ ev.dead.fail = (IF a.var = "B" THEN 0 ELSE 1)
+     /\ (a.var = "C" => {ev.mapper[m][1] : m \in 1..Len(ev.mapper)} = nfa.alpha)
+
 \* Is the dumped table, as an automaton, indistinguishable from the specification's automaton for
 \* every iterator and every haystack?  (Sound also when only a subset of the labels is explored.)
 TableEquiv(a, ev) ==
@@ -280,7 +303,7 @@ TableEquiv(a, ev) ==
       someOf == IF Cardinality(used) <= keep THEN used
                 ELSE LET sq == SetToSeq(used) IN {sq[k] : k \in 1..keep}
       L     == someOf \cup fresh
-  IN wellFormed /\ BisimRounds(ra, nfa, a, lm, L, {<<1, 1>>}, {<<1, 1>>})
+  IN wellFormed /\ (ExactMatch(a, ev) \/ BisimRounds(ra, nfa, a, lm, L, {<<1, 1>>}, {<<1, 1>>}))
 
 AbsKey(a) == <<"absok", a.kind, a.bpats, [i \in 1..Len(a.pats) |-> ValStr(a, i)]>>
 
